@@ -410,7 +410,7 @@ def canon_impl_calls(res):
                 other_awaited += 1
         out.append({"op": c["op"], "ret": c["ret"], "out": evs, "running": c.get("running"),
                     "awaited": aw_ids, "start_awaited": start_awaited, "other_awaited": other_awaited,
-                    "exc": c.get("exc"), "final_marking": c.get("final_marking"), "marked": c.get("marked"),
+                    "exc": c.get("exc"), "final_marking": c.get("final_marking"), "marked": c.get("marked"), "marking": c.get("marking"),
                     "not_running_in": c.get("not_running_in") or [], "witness_events": c.get("witness_events"),
                     "stale_var": c.get("stale_var")})
     return out
